@@ -30,7 +30,8 @@ type RtspClient struct {
 
 	// credentials for play (C14): empty User = none
 	User, Pass   string
-	ForceAuth    string // "", "basic", "digest": send this kind of Authorization on the first DESCRIBE already
+	ForceAuth    string // "", "basic", "digest", "raw": send this kind of Authorization on the first DESCRIBE already
+	RawAuth      string // when set: the literal Authorization value used instead of computed credentials
 	WrongDigest  bool
 	ClientPort   int // first UDP port of this client (tracks use +0/+1, +2/+3)
 	SkipOptions  bool
@@ -152,6 +153,8 @@ func (a *RtspClient) afterOptions() {
 		hdr = append(hdr, "Authorization: "+a.basicAuth())
 	case "digest":
 		hdr = append(hdr, "Authorization: "+a.digestAuth("DESCRIBE", "lalserver", "0123456789abcdef0123456789abcdef"))
+	case "raw":
+		hdr = append(hdr, "Authorization: "+a.RawAuth)
 	}
 	a.request("DESCRIBE", a.Url, append(hdr, "Accept: application/sdp"), "")
 }
@@ -296,10 +299,12 @@ func (a *RtspClient) onResponse(code int, hdr map[string]string, body string) {
 		a.setup = 0
 		a.sendSetup()
 	case "describe":
-		if code == 401 && a.Challenge == "" && a.User != "" {
+		if code == 401 && a.Challenge == "" && (a.User != "" || a.RawAuth != "") {
 			a.Challenge = hdr["www-authenticate"]
 			var auth string
-			if strings.HasPrefix(a.Challenge, "Digest") {
+			if a.RawAuth != "" {
+				auth = a.RawAuth
+			} else if strings.HasPrefix(a.Challenge, "Digest") {
 				auth = a.digestAuth("DESCRIBE", quoted(a.Challenge, "realm"), quoted(a.Challenge, "nonce"))
 			} else {
 				auth = a.basicAuth()
